@@ -123,36 +123,44 @@ Proof.
   eexists. split; [reflexivity|]. cbn [set_trk set_db s_conns s_password s_dbs]. rewrite Hl. repeat split; assumption.
 Qed.
 
-(** ================= counting ================= *)
-Lemma occ_app x l1 l2 : occ x (l1 ++ l2) = occ x l1 + occ x l2.
-Proof. unfold occ, len. rewrite filter_app, app_length. lia. Qed.
-Lemma occ_nil x : occ x [] = 0.
+(** ================= counting =================
+    Elements are counted through a matcher: [Some x] counts the occurrences of x, [None] counts
+    every element (lengths) - one set of lemmas serves the multiset equation and the
+    no-stranding invariant. *)
+Definition mbeq (y : bytes) (m : option bytes) : bool := match m with None => true | Some x => beq y x end.
+Definition occm (m : option bytes) (l : list bytes) : Z := len (filter (fun y => mbeq y m) l).
+Definition meqb (q : Z * bytes * option bytes) (a : elem) : bool :=
+  match q, a with (db, k, m), (d', k', x') => (db =? d') && beq k k' && mbeq x' m end.
+Definition ecountm (q : Z * bytes * option bytes) (l : list elem) : Z := len (filter (meqb q) l).
+Lemma occ_app x l1 l2 : occm x (l1 ++ l2) = occm x l1 + occm x l2.
+Proof. unfold occm, len. rewrite filter_app, app_length. lia. Qed.
+Lemma occ_nil x : occm x [] = 0.
 Proof. reflexivity. Qed.
-Lemma occ_cons x y l : occ x (y :: l) = (if beq y x then 1 else 0) + occ x l.
-Proof. unfold occ, len. cbn [filter]. destruct (beq y x); cbn [length]; lia. Qed.
-Lemma occ_rev x l : occ x (rev l) = occ x l.
+Lemma occ_cons x y l : occm x (y :: l) = (if mbeq y x then 1 else 0) + occm x l.
+Proof. unfold occm, len. cbn [filter]. destruct (mbeq y x); cbn [length]; lia. Qed.
+Lemma occ_rev x l : occm x (rev l) = occm x l.
 Proof. induction l as [|y l IH]; [reflexivity|]. cbn [rev]. rewrite occ_app, IH, !occ_cons, occ_nil. lia. Qed.
-Lemma occ_nonneg x l : 0 <= occ x l.
-Proof. unfold occ, len. lia. Qed.
-Lemma ecount_app e l1 l2 : ecount e (l1 ++ l2) = ecount e l1 + ecount e l2.
-Proof. unfold ecount, len. rewrite filter_app, app_length. lia. Qed.
-Lemma ecount_nil e : ecount e [] = 0.
+Lemma occ_nonneg x l : 0 <= occm x l.
+Proof. unfold occm, len. lia. Qed.
+Lemma ecount_app e l1 l2 : ecountm e (l1 ++ l2) = ecountm e l1 + ecountm e l2.
+Proof. unfold ecountm, len. rewrite filter_app, app_length. lia. Qed.
+Lemma ecount_nil e : ecountm e [] = 0.
 Proof. reflexivity. Qed.
-Lemma ecount_nonneg e l : 0 <= ecount e l.
-Proof. unfold ecount, len. lia. Qed.
-Lemma ecount_cons e a l : ecount e (a :: l) = (if elem_eqb e a then 1 else 0) + ecount e l.
-Proof. unfold ecount, len. cbn [filter]. destruct (elem_eqb e a); cbn [length]; lia. Qed.
+Lemma ecount_nonneg e l : 0 <= ecountm e l.
+Proof. unfold ecountm, len. lia. Qed.
+Lemma ecount_cons e a l : ecountm e (a :: l) = (if meqb e a then 1 else 0) + ecountm e l.
+Proof. unfold ecountm, len. cbn [filter]. destruct (meqb e a); cbn [length]; lia. Qed.
 Lemma elem_eqb_spec db k x db' k' x' :
-  elem_eqb (db, k, x) (db', k', x') = (db =? db') && beq k k' && beq x x'.
+  meqb (db, k, x) (db', k', x') = (db =? db') && beq k k' && mbeq x' x.
 Proof. reflexivity. Qed.
 (** the elements of one push *)
 Lemma ecount_tag dbi k els db k' x :
-  ecount (db, k', x) (map (fun e => (dbi, k, e)) els) = if (db =? dbi) && beq k' k then occ x els else 0.
+  ecountm (db, k', x) (map (fun e => (dbi, k, e)) els) = if (db =? dbi) && beq k' k then occm x els else 0.
 Proof.
   induction els as [|e els IH]; [destruct ((db =? dbi) && beq k' k); reflexivity|].
   cbn [map]. rewrite ecount_cons, IH, elem_eqb_spec, occ_cons.
   destruct (db =? dbi); cbn [andb]; [|lia]. destruct (beq k' k); cbn [andb]; [|lia].
-  rewrite (beq_sym x e). reflexivity.
+  reflexivity.
 Qed.
 
 (** ================= the databases of the server ================= *)
@@ -176,7 +184,7 @@ Qed.
 (** the multiset change of a step on the lists: added and removed elements *)
 Definition delta (s s' : server) (add rem : list elem) : Prop :=
   forall db k x, 0 <= db ->
-  occ x (list_at s' db k) + ecount (db, k, x) rem = occ x (list_at s db k) + ecount (db, k, x) add.
+  occm x (list_at s' db k) + ecountm (db, k, x) rem = occm x (list_at s db k) + ecountm (db, k, x) add.
 Lemma delta_same s s' : (forall db, get_db s' db = get_db s db) -> delta s s' [] [].
 Proof. intros H db k x _. rewrite !list_at_lst, H. reflexivity. Qed.
 Lemma delta_trans s1 s2 s3 a1 r1 a2 r2 : delta s1 s2 a1 r1 -> delta s2 s3 a2 r2 -> delta s1 s3 (a1 ++ a2) (r1 ++ r2).
@@ -184,7 +192,7 @@ Proof. intros H1 H2 db k x Hd. specialize (H1 db k x Hd). specialize (H2 db k x 
 
 (** every element of these lists lives in database dbi *)
 Definition in_db (dbi : Z) (l : list elem) : Prop := forall e, In e l -> fst (fst e) = dbi.
-Lemma ecount_other_db dbi l db k x : in_db dbi l -> db <> dbi -> ecount (db, k, x) l = 0.
+Lemma ecount_other_db dbi l db k x : in_db dbi l -> db <> dbi -> ecountm (db, k, x) l = 0.
 Proof.
   intros H Hn. induction l as [|[[d1 k1] x1] l IH]; [reflexivity|].
   rewrite ecount_cons, elem_eqb_spec, IH by (intros e He; apply H; right; exact He).
@@ -217,7 +225,7 @@ Qed.
 Lemma delta_one_db s s' dbi d' add rem :
   length (s_dbs s) = 16%nat -> 0 <= dbi < 16 -> s_dbs s' = list_set (s_dbs s) (Z.to_nat dbi) d' ->
   in_db dbi add -> in_db dbi rem ->
-  (forall k x, occ x (lst d' k) + ecount (dbi, k, x) rem = occ x (lst (get_db s dbi) k) + ecount (dbi, k, x) add) ->
+  (forall k x, occm x (lst d' k) + ecountm (dbi, k, x) rem = occm x (lst (get_db s dbi) k) + ecountm (dbi, k, x) add) ->
   delta s s' add rem.
 Proof.
   intros Hl Hr Hs Ha Hm H db k x Hd. destruct (get_db_after_set s s' dbi d' Hl Hr Hs) as (G1 & G2 & _).
@@ -240,11 +248,11 @@ Proof. intros H. unfold lst. rewrite lview_on_key_other by exact H. reflexivity.
 
 Lemma h_push_delta left d nm rest dbi r d' :
   ALLd d -> is_push_name (upper nm) = true -> h_push left d (FBulk nm :: rest) = (r, d') ->
-  ALLd d' /\ forall k x, occ x (lst d' k) = occ x (lst d k) + ecount (dbi, k, x) (pushed_of dbi (FBulk nm :: rest) r).
+  ALLd d' /\ forall k x, occm x (lst d' k) = occm x (lst d k) + ecountm (dbi, k, x) (pushed_of dbi (FBulk nm :: rest) r).
 Proof.
   intros HA Hn H. unfold h_push in H.
   assert (Same : forall r0, (forall els0 z, r0 <> FInt z \/ rest = els0 -> True) -> (match r0 with FInt _ => False | _ => True end) ->
-            (r0, d) = (r, d') -> ALLd d' /\ forall k x, occ x (lst d' k) = occ x (lst d k) + ecount (dbi, k, x) (pushed_of dbi (FBulk nm :: rest) r)).
+            (r0, d) = (r, d') -> ALLd d' /\ forall k x, occm x (lst d' k) = occm x (lst d k) + ecountm (dbi, k, x) (pushed_of dbi (FBulk nm :: rest) r)).
   { intros r0 _ Hr E. injection E as <- <-. split; [exact HA|]. intros k x.
     unfold pushed_of. destruct rest as [|[] ?]; try (rewrite ecount_nil; lia). destruct r0; try (rewrite ecount_nil; lia). contradiction. }
   destruct (nparts (FBulk nm :: rest) <? 3); [eapply (Same r_err); [auto|exact I|exact H]|].
@@ -275,7 +283,7 @@ Lemma on_key_pop_delta left d k dbi :
   ALLd d ->
   let r := fst (on_key d k (e_pop left)) in let d' := snd (on_key d k (e_pop left)) in
   ALLd d' /\ (match r with FBulk _ | FNullBulk => True | _ => False end) /\
-  forall k' x, occ x (lst d' k') + ecount (dbi, k', x) (match r with FBulk v => [(dbi, k, v)] | _ => [] end) = occ x (lst d k').
+  forall k' x, occm x (lst d' k') + ecountm (dbi, k', x) (match r with FBulk v => [(dbi, k, v)] | _ => [] end) = occm x (lst d k').
 Proof.
   intros HA. cbv zeta. destruct (lview d k) as [l|] eqn:El; [|exfalso; exact (HA k El)].
   pose proof (pop_view left d k l El) as Hp.
@@ -293,19 +301,19 @@ Proof.
     + intros k' x. rewrite ecount_cons, ecount_nil, elem_eqb_spec, Z.eqb_refl. cbn [andb]. destruct (beq k' k) eqn:Ek.
       * apply beq_eq in Ek. subst k'. rewrite (lst_view _ _ _ Hp2), (lst_view _ _ _ El). cbn [andb].
         destruct left.
-        -- subst l. rewrite occ_cons, (beq_sym x v). lia.
-        -- apply rev_cons_inv in Ev. subst l. rewrite occ_app, occ_cons, occ_nil, (beq_sym x v). lia.
+        -- subst l. rewrite occ_cons. lia.
+        -- apply rev_cons_inv in Ev. subst l. rewrite occ_app, occ_cons, occ_nil. lia.
       * cbn [andb]. unfold lst. rewrite Hoth by exact Ek. lia.
 Qed.
 
 Lemma h_pop_delta left d nm rest dbi r d' :
   ALLd d -> beq (upper nm) (bs "LPOP") || beq (upper nm) (bs "RPOP") = true ->
   h_key1 (e_pop left) d (FBulk nm :: rest) = (r, d') ->
-  ALLd d' /\ forall k x, occ x (lst d' k) + ecount (dbi, k, x) (returned_of dbi (FBulk nm :: rest) r) = occ x (lst d k).
+  ALLd d' /\ forall k x, occm x (lst d' k) + ecountm (dbi, k, x) (returned_of dbi (FBulk nm :: rest) r) = occm x (lst d k).
 Proof.
   intros HA Hn H. unfold h_key1 in H.
   assert (Err : (r_err, d) = (r, d') ->
-            ALLd d' /\ forall k x, occ x (lst d' k) + ecount (dbi, k, x) (returned_of dbi (FBulk nm :: rest) r) = occ x (lst d k)).
+            ALLd d' /\ forall k x, occm x (lst d' k) + ecountm (dbi, k, x) (returned_of dbi (FBulk nm :: rest) r) = occm x (lst d k)).
   { intros E. injection E as <- <-. split; [exact HA|]. intros k x. unfold returned_of. rewrite Hn.
     destruct rest as [|[] ?]; rewrite ecount_nil; lia. }
   destruct (negb (nparts (FBulk nm :: rest) =? 2)) eqn:En; [apply Err; exact H|].
@@ -578,8 +586,8 @@ Lemma fast_path_delta left dbi : forall keys d o d',
   ALLd d -> fast_path left d keys = (o, d') ->
   ALLd d' /\
   (match o with None => True | Some (FArray [FBulk _; FBulk _]) => True | _ => False end) /\
-  forall k' x, occ x (lst d' k') + ecount (dbi, k', x) (match o with Some (FArray [FBulk k; FBulk v]) => [(dbi, k, v)] | _ => [] end)
-               = occ x (lst d k').
+  forall k' x, occm x (lst d' k') + ecountm (dbi, k', x) (match o with Some (FArray [FBulk k; FBulk v]) => [(dbi, k, v)] | _ => [] end)
+               = occm x (lst d k').
 Proof.
   induction keys as [|k keys IH]; intros d o d' HA H; cbn [fast_path] in H.
   - injection H as <- <-. split; [exact HA|]. split; [exact I|]. intros k' x. rewrite ecount_nil. lia.
@@ -616,7 +624,7 @@ Proof.
   destruct (fast_path left (get_db s dbi) keys) as [o d'] eqn:Ef.
   destruct (fast_path_delta left dbi keys _ o d' (ci_all s CI dbi) Ef) as (A1 & A2 & A3).
   assert (Hset : forall sx, s_dbs sx = list_set (s_dbs s) (Z.to_nat dbi) d' -> s_conns sx = s_conns s -> s_password sx = s_password s ->
-            forall rem, in_db dbi rem -> (forall k' x, occ x (lst d' k') + ecount (dbi, k', x) rem = occ x (lst (get_db s dbi) k')) ->
+            forall rem, in_db dbi rem -> (forall k' x, occm x (lst d' k') + ecountm (dbi, k', x) rem = occm x (lst (get_db s dbi) k')) ->
             cinv sx /\ delta s sx [] rem).
   { intros sx E1 E2 E3 rem Hin Hq. split; [eapply cinv_set_db; eauto|].
     eapply delta_one_db; eauto using in_db_nil, (ci_len s CI). intros k x. rewrite ecount_nil, Hq. lia. }
@@ -940,7 +948,7 @@ Qed.
 
 Definition ginv (st : sys) (P R : list elem) : Prop :=
   reach None st /\ b_crashed (snd st) = false /\ cinv (fst st) /\ BR (snd st) /\
-  forall db k x, 0 <= db -> ecount (db, k, x) P = ecount (db, k, x) R + occ x (list_at (fst st) db k).
+  forall db k x, 0 <= db -> ecountm (db, k, x) P = ecountm (db, k, x) R + occm x (list_at (fst st) db k).
 
 Lemma ok_cons_ok st e : ok_cons st e = true -> ok st e = true.
 Proof. unfold ok_cons. intros H. apply andb_true_iff in H. tauto. Qed.
@@ -957,8 +965,8 @@ Proof.
             delta s s' (pushed_in (s, b) e) (returned_in (s, b) e) ->
             step (s, b) e = (s', b') ->
             b_crashed (snd (step (s, b) e)) = false /\ cinv (fst (step (s, b) e)) /\ BR (snd (step (s, b) e)) /\
-            forall db k x, 0 <= db -> ecount (db, k, x) (P ++ pushed_in (s, b) e)
-                                      = ecount (db, k, x) (R ++ returned_in (s, b) e) + occ x (list_at (fst (step (s, b) e)) db k)).
+            forall db k x, 0 <= db -> ecountm (db, k, x) (P ++ pushed_in (s, b) e)
+                                      = ecountm (db, k, x) (R ++ returned_in (s, b) e) + occm x (list_at (fst (step (s, b) e)) db k)).
   { intros s' b' F1 F2 F3 F4 F5. rewrite F5. cbn [fst snd]. split; [exact F1|]. split; [exact F2|]. split; [exact F3|].
     intros db k x Hd. rewrite !ecount_app. specialize (F4 db k x Hd). specialize (HE db k x Hd). lia. }
   unfold ok_cons in Hok. apply andb_true_iff in Hok. destruct Hok as [_ Hok2].
@@ -1025,13 +1033,30 @@ Proof.
   - apply ginv_step; assumption.
 Qed.
 
+(** the matcher counts are the plain counts *)
+Lemma occm_some x l : occm (Some x) l = occ x l.
+Proof. reflexivity. Qed.
+Lemma occm_none l : occm None l = len l.
+Proof.
+  unfold occm. f_equal. induction l as [|y l IH]; [reflexivity|]. cbn [filter mbeq]. f_equal. exact IH.
+Qed.
+Lemma ecountm_some db k x l : ecountm (db, k, Some x) l = ecount (db, k, x) l.
+Proof.
+  unfold ecountm, ecount. f_equal.
+  assert (E : filter (meqb (db, k, Some x)) l = filter (elem_eqb (db, k, x)) l); [|rewrite E; reflexivity].
+  apply filter_ext. intros [[d' k'] x']. cbn [meqb elem_eqb mbeq]. rewrite (beq_sym x' x). reflexivity.
+Qed.
+
 (** the multiset equation, per list: pushed = returned + remaining *)
 Theorem conservation st P R : reach_g st P R ->
   forall db k x, 0 <= db -> ecount (db, k, x) P = ecount (db, k, x) R + occ x (list_at (fst st) db k).
-Proof. intros H. destruct (reach_g_ginv _ _ _ H) as (_ & _ & _ & _ & HE). exact HE. Qed.
+Proof.
+  intros H db k x Hd. destruct (reach_g_ginv _ _ _ H) as (_ & _ & _ & _ & HE).
+  specialize (HE db k (Some x) Hd). rewrite !ecountm_some, occm_some in HE. exact HE.
+Qed.
 (** no element is returned more often than it was pushed *)
 Theorem no_duplicate st P R : reach_g st P R -> forall db k x, 0 <= db -> ecount (db, k, x) R <= ecount (db, k, x) P.
-Proof. intros H db k x Hd. rewrite (conservation _ _ _ H db k x Hd). pose proof (occ_nonneg x (list_at (fst st) db k)). lia. Qed.
+Proof. intros H db k x Hd. rewrite (conservation _ _ _ H db k x Hd). pose proof (occ_nonneg (Some x) (list_at (fst st) db k)) as Hn. rewrite occm_some in Hn. lia. Qed.
 (** the event loop does not end; every stored value is a list *)
 Theorem no_crash st P R : reach_g st P R -> b_crashed (snd st) = false.
 Proof. intros H. destruct (reach_g_ginv _ _ _ H) as (_ & Hc & _). exact Hc. Qed.
